@@ -134,8 +134,24 @@ func GetCurrentDBDirName(fs vfs.FS, dir string) (string, error) {
 
 // CreateNodeDataDir creates new SM data dir.
 func CreateNodeDataDir(fs vfs.FS, dir string) error {
+	// Remember which ancestors are going to be created, the entries of all of them have to be made durable.
+	var created []string
+	for d := filepath.Clean(dir); ; d = filepath.Dir(d) {
+		if parent := filepath.Dir(d); parent == d || parent == "." {
+			break
+		}
+		if _, err := fs.Stat(d); err == nil {
+			break
+		}
+		created = append(created, d)
+	}
 	if err := fs.MkdirAll(dir, 0o755); err != nil {
 		return err
+	}
+	for _, d := range created {
+		if err := syncDir(fs, filepath.Dir(d)); err != nil {
+			return err
+		}
 	}
 	return syncDir(fs, filepath.Dir(dir))
 }
